@@ -129,6 +129,25 @@ theorem C56_witness_second_opt : ¬ SingleOpt := by
   revert this
   decide
 
+/-- **C56_post_chunking_independent**: however `req.Body.Read` cuts the body into pieces (any sizes, empty reads, any
+    number of calls), the forwarded message is the one of the concatenation: all theorems above, stated for a body
+    given as one byte string, hold for every chunking. -/
+theorem C56_post_chunking_independent (method : String) (dnsVals : Option (List Bytes)) (chunks : List Bytes)
+    (ra ca : Option Bytes) :
+    requestToDnsMsgC unpack method dnsVals chunks ra ca =
+      requestToDnsMsg unpack method dnsVals chunks.flatten ra ca := by
+  have : unpackInputC method dnsVals chunks = unpackInput method dnsVals chunks.flatten := by
+    unfold unpackInputC unpackInput
+    split
+    · rfl
+    · split
+      · rw [readLimited_eq]
+      · rfl
+  simp [requestToDnsMsgC, requestToDnsMsg, this]
+
+example : requestToDnsMsgC (fun w => some ⟨toString w.length, [], true⟩) "POST" none [[1], [], [2, 3], [4]] none none =
+    some ⟨"4", [], true⟩ := by decide
+
 /-- **C56_ttl_min** (RFC 8484 §5.1, mod_doh docs): `Cache-Control: max-age` is the smallest TTL of the Answer section —
     it is one of the answer TTLs and no answer TTL is smaller; 0 when there is no answer.  Authority/additional
     records do not take part. -/
